@@ -108,7 +108,8 @@ def gen(rng, tier, index):
                     "n_cmds": rng.randint(1, 6) if scenario != "F" else rng.choice([40, 90, 130]),
                     "producers": rng.randint(2, 4) if scenario in ("B", "S") else (3 if scenario == "F" else 1), "gaps": [rng.choice([0, 0, 0.005, 0.02, 0.03]) for _ in range(8)],
                     "event_delay": rng.choice([0, 0, 0.001, 0.01, 0.02, 0.0205, 0.04]), "sched": sched,
-                    "slow_send": flavour == "tcp" and rng.random() < 0.4, "at_write_horizon": rng.choice([3, 6, 12]), "long_cmds": scenario != "F" and rng.random() < 0.4}}
+                    "slow_send": flavour == "tcp" and rng.random() < 0.4, "at_write_horizon": rng.choice([3, 6, 12]),
+                    "send_on_made": event in ("read_error", "read_error_reconnect", "both_errors", "peer_reset", "peer_eof") and rng.random() < 0.4, "long_cmds": scenario != "F" and rng.random() < 0.4}}
 
 
 def _vio(cls, detail, **sig):
@@ -266,6 +267,14 @@ def run(case):
                         sim.sleep(0.005)
 
                 world.conn_hook = slow_lost
+            if cfg.get("send_on_made"):
+                # the application greets every new connection from its connection-made callback (a direct Gateway.send(),
+                # in the thread that established the link) - also the one made while the pump is dealing with a lost one
+                def greet(gw):
+                    probes["sent_from_made_callback"] = probes.get("sent_from_made_callback", 0) + 1
+                    gw.send("0;255;3;0;18;\n")
+
+                world.made_hook = greet
             if cfg["scenario"] == "F":
                 stalled = []
 
